@@ -419,28 +419,50 @@ def r_ord_empty(ctx, fq):
     n = 0
     for nd in raises:
         conds = ctx.conds(f, nd)
-        rate = None
+        rate, vals = None, (0.0, 1e-9, 0.25)
+
+        def is_count(x):
+            return is_call(x, 'numpy.sum', 'builtins.sum', 'numpy.count_nonzero') and len(x[2]) == 1 or \
+                (is_call(x, 'builtins.len') and x[2] and x[2][0][0] == 'sub' and is_call(x[2][0][1], 'numpy.where'))
+
+        def is_size(x):
+            return is_call(x, 'builtins.len') or (x[0] == 'attr' and x[2] == 'size') or \
+                (x[0] == 'bin' and x[1] == '**' and x[2] == ('c', 4))
         for atom, pol in conds:
             for x in walk_term(atom):
-                if x[0] == 'bin' and x[1] == '/' and is_call(x[2], 'numpy.sum', 'builtins.sum') and is_call(x[3], 'builtins.len'):
+                if x[0] == 'bin' and x[1] == '/' and is_count(x[2]) and is_size(x[3]):
                     rate = x
+        if rate is None:
+            # the count itself (no division), or any(mask)
+            for atom, pol in conds:
+                for x in walk_term(atom):
+                    if is_count(x) and rate is None:
+                        rate, vals = x, (0, 1, 3)
+                    if (is_call(x, 'builtins.any', 'numpy.any') and len(x[2]) == 1 or
+                            x[0] == 'call' and x[1][0] == 'attr' and x[1][2] == 'any' and not x[2]) and rate is None:
+                        rate, vals = x, (False, True, True)
         if rate is None:
             continue
         n += 1
         tab = []
-        for val in (0.0, 0.25):
+        for val in vals:
             vs = []
             for atom, pol in conds:
                 if not any(x == rate for x in walk_term(atom)):
                     continue
-                v = feval(atom, lambda x: val if x == rate else UNKNOWN)
+                v = feval(atom, lambda x: val if x == rate else (16 if is_size(x) else UNKNOWN))
                 vs.append(UNKNOWN if v is UNKNOWN else bool(v) == pol)
             tab.append(all(v is True for v in vs) if all(v is not UNKNOWN for v in vs) else UNKNOWN)
-        ctx.run.count('cases', 2)
+        ctx.run.count('cases', 3)
         typ = _exc_type(f, nd)
-        run.check(tuple(tab) == (True, False) and typ == 'ValueError', 'R-ORD', f, 'raise-iff-none-accepted', nd.lineno,
+        if any(v is UNKNOWN for v in tab):
+            run.undecided('R-ORD', f, 'raise-iff-none-accepted', nd.lineno,
+                          'the emptiness test is not evaluable for (none accepted, some accepted): %s' % (tab,))
+            continue
+        run.check(tuple(tab) == (True, False, False) and typ == 'ValueError', 'R-ORD', f, 'raise-iff-none-accepted', nd.lineno,
                   'ValueError raised iff the accepted fraction is 0',
-                  '%s raises %s with table %s for (none accepted, some accepted); required ValueError iff none'
+                  '%s raises %s with table %s for (none accepted, one k-mer in a huge mask accepted, a quarter accepted); required '
+                  'ValueError iff none (a rounded or truncated fraction turns a small positive fraction into 0)'
                   % (f.name, typ, tab), extracted=[str(x) for x in tab], inputs='empty and non-empty masks')
     if n == 0:
         for nd in raises:
@@ -903,11 +925,12 @@ def r_cascade(ctx):
     n = 0
     seen = set()
     for nd, s in ctx.all_subterms(f):
-        if s[0] == 'comp' and s[1] == 'list' and len(s[3]) == 1 and s[2][0] == 'tuple' and len(s[2]) == 3 and s not in seen:
+        if s[0] == 'comp' and s[1] in ('list', 'gen') and len(s[3]) == 1 and s[2][0] == 'tuple' and len(s[2]) == 3 and \
+                ('comp', 'list') + s[2:] not in seen:
             it, conds = s[3][0]
             if not (call_name(it) and call_name(it).endswith('.obtain_formers')):
                 continue
-            seen.add(s)
+            seen.add(('comp', 'list') + s[2:])
             n += 1
             x_arg = call_arg(it, 0, 'current')
             first, second = s[2][1], s[2][2]
@@ -942,8 +965,14 @@ def r_cascade(ctx):
     k = 0
     for nd in f.nodes:
         for d in nd.defs:
+            t = None
             if d.kind == 'aug' and d.value is not None and isinstance(nd.stmt, ast.AugAssign) and nd.loops:
                 t = f.term(d.value, nd)
+            elif d.kind == 'mutate' and isinstance(d.extra, ast.Attribute) and d.extra.attr == 'extend' and nd.loops and \
+                    d.value is not None:
+                c_ = f.term(d.value, nd)
+                t = c_[2][0] if c_[0] == 'call' and len(c_[2]) == 1 else None
+            if t is not None:
                 if t[0] == 'comp' and call_name(t[3][0][0]) and call_name(t[3][0][0]).endswith('.obtain_formers'):
                     k += 1
                     okc = False
